@@ -595,6 +595,11 @@ func cmdCheck(args []string) int {
 					msg := fmt.Sprintf("counterexample for %q did not reproduce natively (assume_failed=%v)", v.Msg, o.AssumeFailed)
 					notes = append(notes, msg)
 					r.Inconcl = append(r.Inconcl, msg)
+					if data, err := json.MarshalIndent(v.Replay, "", " "); err == nil {
+						ud := filepath.Join(verifDir, "build", "unconfirmed")
+						os.MkdirAll(ud, 0o755)
+						os.WriteFile(filepath.Join(ud, fmt.Sprintf("%s-%s.json", id, r.Unit)), data, 0o644)
+					}
 					v.Msg = "UNCONFIRMED: " + v.Msg
 				} else {
 					validated++
